@@ -483,3 +483,335 @@ def run_cpyformat_stream(chk, strings, per_string=2):
         chk.broken.append({'kind': 'correspondence', 'stream': 'pybrace-cpyformat', 'line': lines[i], 'impl': outs[i], 'model': model[i],
                            'format': pairs[i][0], 'args': repr(pairs[i][1:])[:200]})
     return [pairs[i] for i in dis]
+
+# ------------------------------------------------------------------ falsifier: the property on the real code
+
+def _short(s):
+    return s if len(s) < 300 else s[:120] + f'…[{len(s)} chars]…' + s[-60:]
+
+SAMPLE = {'int': (65, 0, 7), 'float': (1.5, -0.25, 1e300), 'str': ('a', '', 'é')}
+
+def args_from_signature(fmt, variant=0):
+    """(pos, kw) with a value of a reported type under every reported key; None if it cannot be built (huge index)"""
+    am = fmt.argument_map
+    idx = [k for k in am if isinstance(k, int)]
+    if idx and max(idx) > 5000:
+        return None
+    pos = [0] * (max(idx) + 1 if idx else 0)
+    kw = {}
+    for j, (k, args) in enumerate(am.items()):
+        types = sorted(set.intersection(*[set(a.types) for a in args])) if args else []
+        if not types:
+            return None
+        tp = types[(variant + j) % len(types)]
+        v = SAMPLE[tp][variant % 3]
+        if isinstance(k, int):
+            pos[k] = v
+        else:
+            kw[k] = v
+    return pos, kw
+
+def _accept_key(msg):
+    m = re.match(r"Cannot specify ',' with '([bcoxX])'\.", msg)
+    if m:
+        return 'accept:comma-with-bcoxX'
+    if msg.startswith("Sign not allowed with integer format specifier 'c'") or msg.startswith("Alternate form (#) not allowed with integer format specifier 'c'"):
+        return 'accept:sign-or-alt-with-c'
+    return None
+
+def check_py(s, stats=None):
+    """C13 (python-brace) evaluated on the real code for one string, with the running interpreter as oracle.
+    None or a replay dict (with 'key' for the known-finding match)."""
+    m = M()
+    rep = {'parser': 'pybrace', 'input': _short(s), 'input_hex': hexchars(s) if len(s) < 2000 else None,
+           'replay': f'import lib.strformat.pybrace as M; M.FormatString({s!r})' if len(s) < 2000 else 'see input'}
+    def count(k):
+        if stats is not None:
+            stats[k] = stats.get(k, 0) + 1
+    try:
+        fmt = m.FormatString(s)
+    except m.Error as exc:
+        count('rejected:' + type(exc).__name__)
+        return None                       # rejecting is always allowed
+    except Exception as exc:
+        rep.update(kind='crash', observed=f'{type(exc).__name__}: {exc}'[:200], expected="only the module's own Error classes",
+                   key=f'crash:{type(exc).__name__}:{s[:80]}')
+        return rep
+    if not oracle_parses(s):
+        rep.update(kind='accepted-but-python-rejects', observed=oracle_parse(s), expected='string.Formatter().parse(s) succeeds',
+                   key='parse:' + s[:80])
+        return rep
+    if not ref_flat(s):
+        count('accepted-nonflat')
+        return None
+    if not oracle_safe(s):
+        count('accepted-not-run(allocation)')
+        return None
+    for variant in range(3):
+        try:
+            sig = args_from_signature(fmt, variant)
+        except Exception as exc:
+            rep.update(kind='signature-unusable', observed=f'{type(exc).__name__}: {exc}'[:200], expected='argument_map with .types', key='signature:' + s[:80])
+            return rep
+        if sig is None:
+            count('accepted-not-run(index)')
+            return None
+        pos, kw = sig
+        try:
+            s.format(*pos, **kw)
+        except Exception as exc:
+            msg = str(exc)
+            rep.update(kind='accepted-but-format-fails', observed=f'{s!r}.format(*{pos!r}, **{kw!r}) -> {type(exc).__name__}: {msg}'[:300],
+                       expected='str.format succeeds with arguments of the reported positions, names and types', args=repr((pos, kw))[:300],
+                       key=_accept_key(msg) or 'accept:' + s[:80])
+            return rep
+    count('accepted-formatted')
+    return None
+
+def ref_perl(s):
+    """independent reference for perl-brace: None if some `{` does not open a `{identifier}` placeholder, else the set of identifiers.
+    identifier = [^\\W\\d]\\w*, spelled with str methods: \\w = isalnum or '_', \\d = isdecimal"""
+    names, i, n = set(), 0, len(s)
+    def word(c):
+        return c.isalnum() or c == '_'
+    while i < n:
+        if s[i] != '{':
+            i += 1
+            continue
+        j = i + 1
+        if j >= n or not word(s[j]) or s[j].isdecimal():
+            return None
+        while j < n and word(s[j]):
+            j += 1
+        if j >= n or s[j] != '}':
+            return None
+        names.add(s[i + 1:j])
+        i = j + 1
+    return names
+
+def check_perl(s, stats=None):
+    p = P()
+    rep = {'parser': 'perlbrace', 'input': _short(s), 'input_hex': hexchars(s) if len(s) < 2000 else None,
+           'replay': f'import lib.strformat.perlbrace as P; P.FormatString({s!r})' if len(s) < 2000 else 'see input'}
+    want = ref_perl(s)
+    try:
+        fmt = p.FormatString(s)
+        got = set(fmt.arguments)
+    except p.Error:
+        got = None
+    except Exception as exc:
+        rep.update(kind='crash', observed=f'{type(exc).__name__}: {exc}'[:200], expected="only the module's own Error class",
+                   key=f'perl-crash:{type(exc).__name__}:{s[:80]}')
+        return rep
+    if stats is not None:
+        k = 'perl-accepted' if got is not None else 'perl-rejected'
+        stats[k] = stats.get(k, 0) + 1
+    if (got is None) != (want is None):
+        rep.update(kind='perl-acceptance', observed='accepted' if got is not None else 'rejected',
+                   expected='accepted iff every { opens a {identifier} placeholder: ' + ('well-formed' if want is not None else 'not well-formed'),
+                   key='perl-accept:' + s[:80])
+        return rep
+    if got is not None and got != want:
+        rep.update(kind='perl-names', observed=sorted(got), expected=sorted(want), key='perl-names:' + s[:80])
+        return rep
+    return None
+
+def shrink(s, kind, fn, limit=3000):
+    """delete chunks while the same kind of violation remains (delta debugging, bounded)"""
+    cur, calls = s, 0
+    changed = True
+    while changed and calls < limit:
+        changed = False
+        for size in (16, 8, 4, 2, 1):
+            i = 0
+            while i < len(cur) and calls < limit:
+                cand = cur[:i] + cur[i + size:]
+                calls += 1
+                r = fn(cand)
+                if r is not None and r.get('kind') == kind:
+                    cur, changed = cand, True
+                else:
+                    i += 1
+    return cur
+
+def falsify(chk, strings, budget, stats, fn):
+    """the property on the real code; returns (first genuine counterexample (shrunk) or None, tried)"""
+    tried = 0
+    seen = set()
+    for s in strings:
+        if tried >= budget:
+            break
+        if s in seen:
+            continue
+        seen.add(s)
+        tried += 1
+        rep = fn(s, stats)
+        if rep is None:
+            continue
+        if not chk.match_known(rep['key']):
+            small = shrink(s, rep['kind'], fn)
+            if small != s:
+                rep2 = fn(small)
+                if rep2 is not None and rep2.get('kind') == rep['kind']:
+                    rep2['found_as'] = rep['input']
+                    rep = rep2
+        key = rep.pop('key')
+        if chk.violation(rep['kind'], rep, key=key):
+            return rep, tried
+        stats['known-finding:' + key] = stats.get('known-finding:' + key, 0) + 1
+    return None, tried
+
+# ------------------------------------------------------------------ time: regex screen + timing stream (test level, not proof)
+
+def regex_screen():
+    """structural screen of the live parse trees: every unbounded repeat whose body contains another unbounded repeat (the
+    (a*)* / (a|b*)* shapes) or a branch with overlapping first characters; returns descriptions and sample characters to pump"""
+    import re._parser as sp, re._constants as sc
+    hits = []
+    def sample(av):
+        """a character matched by a set / literal"""
+        neg = any(op is sc.NEGATE for op, _ in av)
+        for cand in 'a0_x.[]{}!: ':
+            ok = False
+            for op, a in av:
+                if op is sc.LITERAL and ord(cand) == a: ok = True
+                elif op is sc.RANGE and a[0] <= ord(cand) <= a[1]: ok = True
+                elif op is sc.CATEGORY:
+                    if a is sc.CATEGORY_WORD and (cand.isalnum() or cand == '_'): ok = True
+                    if a is sc.CATEGORY_NOT_WORD and not (cand.isalnum() or cand == '_'): ok = True
+                    if a is sc.CATEGORY_DIGIT and cand.isdecimal(): ok = True
+                    if a is sc.CATEGORY_NOT_DIGIT and not cand.isdecimal(): ok = True
+            if ok != neg:
+                return cand
+        return 'a'
+    def unbounded_inside(p):
+        out = []
+        for op, av in p:
+            if op is sc.MAX_REPEAT or op is sc.MIN_REPEAT:
+                lo, hi, body = av
+                if hi is sc.MAXREPEAT:
+                    chars = []
+                    for o2, a2 in body:
+                        if o2 is sc.IN: chars.append(sample(a2))
+                        elif o2 is sc.LITERAL: chars.append(chr(a2))
+                        elif o2 is sc.NOT_LITERAL: chars.append('a' if a2 != ord('a') else 'b')
+                        elif o2 is sc.ANY: chars.append('a')
+                    out.append((lo, chars))
+                out += unbounded_inside(body)
+            elif op is sc.BRANCH:
+                for alt in av[1]:
+                    out += unbounded_inside(alt)
+            elif op is sc.SUBPATTERN:
+                out += unbounded_inside(av[3])
+        return out
+    def walk(name, p):
+        for op, av in p:
+            if op is sc.MAX_REPEAT or op is sc.MIN_REPEAT:
+                lo, hi, body = av
+                if hi is sc.MAXREPEAT:
+                    inner = unbounded_inside(body)
+                    for ilo, chars in inner:
+                        hits.append({'pattern': name, 'shape': f'repeat({lo},inf) over repeat({ilo},inf)', 'pump': chars})
+                walk(name, body)
+            elif op is sc.BRANCH:
+                for alt in av[1]:
+                    walk(name, alt)
+            elif op is sc.SUBPATTERN:
+                walk(name, av[3])
+    for name, mod, attr in (('pybrace._field_re', M(), '_field_re'), ('pybrace._simple_field_re', M(), '_simple_field_re'),
+                            ('pybrace._format_spec_re', M(), '_format_spec_re'), ('perlbrace._field_re', P(), '_field_re')):
+        try:
+            r = getattr(mod, attr)
+            walk(name, sp.parse(r.pattern, r.flags))
+        except Exception as exc:
+            hits.append({'pattern': name, 'shape': f'unreadable: {type(exc).__name__}', 'pump': ['a']})
+    return hits
+
+class _Timeout(Exception):
+    pass
+
+def _timed(fn, s, limit):
+    """wall time of fn(s) (own errors are fine), or None on timeout; the regex engine checks signals while matching"""
+    import signal
+    def handler(signum, frame):
+        raise _Timeout()
+    old = signal.signal(signal.SIGALRM, handler)
+    signal.setitimer(signal.ITIMER_REAL, limit)
+    t0 = time.perf_counter()
+    try:
+        try:
+            fn(s)
+        except _Timeout:
+            return None
+        except Exception:
+            pass
+        return time.perf_counter() - t0
+    finally:
+        signal.setitimer(signal.ITIMER_REAL, 0)
+        signal.signal(signal.SIGALRM, old)
+
+def timing_stream(chk, thorough=False):
+    """n, 2n, 4n on pump strings: the time of FormatString must not grow faster than ~linearly.  TEST level."""
+    limit = 2.0
+    top = 1 << (18 if thorough else 16)
+    results = []
+    def run(parser, fn, name, prefix, pump, suffix):
+        n, pts = 32, []
+        while n <= top:
+            s = prefix + pump * n + suffix
+            best = None
+            for _ in range(3):
+                t = _timed(fn, s, limit)
+                if t is None:
+                    return {'parser': parser, 'template': name, 'n': n, 'len': len(s), 'verdict': 'timeout', 'seconds': f'>{limit}', 'input': s}
+                best = t if best is None else min(best, t)
+            pts.append((n, best))
+            if best > 0.12:
+                break
+            n *= 2
+        # judge the growth over a 16-fold span of sizes (a step in the engine's memory behaviour makes single doublings noisy):
+        # linear time gives ~16, quadratic ~256
+        big = [(n, t) for n, t in pts if t >= 1e-4]
+        verdict, ratio = 'ok', None
+        if len(big) >= 4:
+            n2, t2 = big[-1]
+            n0, t0 = next((n, t) for n, t in big if n * 16 >= n2)
+            span = n2 // n0
+            if span >= 8:
+                ratio = (t2 / t0) * (16 / span)        # normalised to a 16-fold span (exact for linear growth)
+                if t2 / t0 > 6.5 * span:
+                    verdict = 'superlinear'
+        res = {'parser': parser, 'template': name, 'verdict': verdict, 'ratio_16n_over_n': None if ratio is None else round(ratio, 2),
+               'largest_n': pts[-1][0], 'seconds_at_largest': round(pts[-1][1], 5)}
+        if verdict != 'ok':
+            res['input'] = prefix + pump * pts[-1][0] + suffix
+        return res
+    m, p = M(), P()
+    templates = [('pybrace', m.FormatString) + t for t in G.pump_templates()] + [('perlbrace', p.FormatString) + t for t in G.perl_pump_templates()]
+    screen = regex_screen()
+    seen = set()
+    for h in screen:
+        for c in h['pump']:
+            for pre in ('{', '{:', '{a[', '{!', '{:{', '{:{a[', '{a.', '{0', ''):
+                parser = 'perlbrace' if h['pattern'].startswith('perl') else 'pybrace'
+                key = (parser, pre, c)
+                if key in seen or (parser == 'perlbrace' and pre not in ('{', '')):
+                    continue
+                seen.add(key)
+                templates.append((parser, p.FormatString if parser == 'perlbrace' else m.FormatString, f'screen:{pre}+{c!r}*n', pre, c, ''))
+    bad = []
+    for parser, fn, name, prefix, pump, suffix in templates:
+        r = run(parser, fn, name, prefix, pump, suffix)
+        if r['verdict'] != 'ok':
+            # confirm once more before reporting (noise)
+            r2 = run(parser, fn, name, prefix, pump, suffix)
+            if r2['verdict'] != 'ok':
+                bad.append(r2)
+            r = r2
+        results.append({k: v for k, v in r.items() if k != 'input'})
+    chk.coverage['timing'] = {'templates': len(templates), 'screen_hits': [{k: v for k, v in h.items()} for h in screen][:20],
+                              'worst_ratio_16n_over_n': max([r['ratio_16n_over_n'] or 0 for r in results] or [0]),
+                              'not_ok': [{k: v for k, v in r.items() if k != 'input'} for r in bad], 'limit_ratio_16n_over_n': 104.0,
+                              'results': results if thorough else results[:12]}
+    chk.evaluations += len(templates)
+    return bad
